@@ -114,4 +114,66 @@ theorem fn_sockClose (s : S) (now : Int) :
         cases t.regWrite <;> cases t.cfg.ext <;> simp [S.emit]
       simp [runClose]
 
+/-! ### `Client.loop_write` -/
+
+/-- the calls `loop_write()` makes, executed on the model -/
+def runLW (s : S) : MEff → S
+  | .call "_packet_write" [] => (s.packetWrite s.writeFuel).1
+  | .call "_loop_rc_handle" [rc] => (s.loopRcHandle rc).1
+  | .call "_call_socket_register_write" [] => s.callSocketRegisterWrite
+  | .call "_call_socket_unregister_write" [] => s.callSocketUnregisterWrite none
+  | _ => s
+
+/-- **`Client.loop_write` as the source has it now = the model's `loopWrite`** (result code and effect on the client), the results of
+the calls it makes being those of the model's functions at that point: MQTT_ERR_NO_CONN without a socket; otherwise
+`_packet_write()`, whose MQTT_ERR_AGAIN becomes success and whose error goes through `_loop_rc_handle()`; and FINALLY, whatever
+happened, the write registration is settled by what `want_write()` says THEN - register when unsent data remains, unregister
+otherwise (C16: `c16_no_lost_wakeup`; seeded C16e and X51 changed this finally block) -/
+theorem fn_loopWrite (s : S) (now : Int) :
+    let p1 := s.packetWrite s.writeFuel
+    let s2 := if p1.2 = rcAgain then p1.1 else if p1.2 > 0 then (p1.1.loopRcHandle p1.2).1 else p1.1
+    ∃ rc effs, Gen.Fn.SockCb.loopWrite (sockId s.sock) now p1.2 (p1.1.loopRcHandle p1.2).2 s2.wantWrite = .ok (rc, effs) ∧
+      (effs.foldl runLW s, rc) = s.loopWrite := by
+  intro p1 s2
+  unfold Gen.Fn.SockCb.loopWrite S.loopWrite
+  cases hs : s.sock with
+  | none => exact ⟨4, [], by simp [sockId, pure, Except.pure], by simp [rcNoConn]⟩
+  | some c =>
+    have e0 : ((c : Int) + 1 == 0) = false := by rw [beq_eq_false_iff_ne]; omega
+    simp only [sockId, e0]
+    by_cases ha : p1.2 = rcAgain
+    · have ha' : (p1.2 == -1) = true := by simpa [rcAgain] using ha
+      have hs2 : s2 = p1.1 := by simp [s2, ha]
+      cases hw : p1.1.wantWrite with
+      | true =>
+        refine ⟨0, [.call "_packet_write" [], .call "_call_socket_register_write" []], ?_, ?_⟩
+        · simp [ha', hs2, hw, pure, Except.pure, bind, Except.bind]
+        · simp [runLW, p1, ha, hw, rcSuccess] at *
+      | false =>
+        refine ⟨0, [.call "_packet_write" [], .call "_call_socket_unregister_write" []], ?_, ?_⟩
+        · simp [ha', hs2, hw, pure, Except.pure, bind, Except.bind]
+        · simp [runLW, p1, ha, hw, rcSuccess] at *
+    · have ha' : (p1.2 == -1) = false := by rw [beq_eq_false_iff_ne]; simpa [rcAgain] using ha
+      by_cases hp : p1.2 > 0
+      · have hs2 : s2 = (p1.1.loopRcHandle p1.2).1 := by simp [s2, ha, hp]
+        cases hw : (p1.1.loopRcHandle p1.2).1.wantWrite with
+        | true =>
+          refine ⟨(p1.1.loopRcHandle p1.2).2, [.call "_packet_write" [], .call "_loop_rc_handle" [p1.2], .call "_call_socket_register_write" []], ?_, ?_⟩
+          · simp [ha', hp, hs2, hw, pure, Except.pure, bind, Except.bind]
+          · simp [runLW, p1, ha, hp, hw] at *
+        | false =>
+          refine ⟨(p1.1.loopRcHandle p1.2).2, [.call "_packet_write" [], .call "_loop_rc_handle" [p1.2], .call "_call_socket_unregister_write" []], ?_, ?_⟩
+          · simp [ha', hp, hs2, hw, pure, Except.pure, bind, Except.bind]
+          · simp [runLW, p1, ha, hp, hw] at *
+      · have hs2 : s2 = p1.1 := by simp [s2, ha, hp]
+        cases hw : p1.1.wantWrite with
+        | true =>
+          refine ⟨0, [.call "_packet_write" [], .call "_call_socket_register_write" []], ?_, ?_⟩
+          · simp [ha', hp, hs2, hw, pure, Except.pure, bind, Except.bind]
+          · simp [runLW, p1, ha, hp, hw, rcSuccess] at *
+        | false =>
+          refine ⟨0, [.call "_packet_write" [], .call "_call_socket_unregister_write" []], ?_, ?_⟩
+          · simp [ha', hp, hs2, hw, pure, Except.pure, bind, Except.bind]
+          · simp [runLW, p1, ha, hp, hw, rcSuccess] at *
+
 end Paho.FnEq
